@@ -77,3 +77,18 @@ func VerifIdle(cl *ClientDnsConnection, sc net.Conn) bool {
 	_, n2, _ := u.out.VerifState()
 	return n1 == 0 && n2 == 0
 }
+
+// VerifNegotiated reports what the handshake settled on.
+func VerifNegotiated(cl *ClientDnsConnection) (qt, up, down int, edns bool, upmtu, frag int) {
+	s := cl.Serializer
+	if s.Upstream.QueryType != nil {
+		qt = int(*s.Upstream.QueryType)
+	}
+	if s.Upstream.Encoder != nil {
+		up = int(s.Upstream.Encoder.Code())
+	}
+	if s.Downstream.Encoder != nil {
+		down = int(s.Downstream.Encoder.Code())
+	}
+	return qt, up, down, s.UseEdns0, int(s.Upstream.FragmentSize), int(s.Downstream.FragmentSize)
+}
